@@ -175,6 +175,14 @@ Definition consume_signed (p : Z) (e : envelope) : option (list waddr) :=
   else if negb (pr_peer (e_rec e) =? p) then None
   else Some (parse_addrs (pr_addrs (e_rec e))).
 
+(* is the record handed on as the remote peer's record (the event's
+   SignedPeerRecord): only when it verified and consumeSignedPeerRecord took it *)
+Definition record_used (p : Z) (m : msg) : bool :=
+  match rec_of_msg m with
+  | Some e => match consume_signed p e with Some _ => true | None => false end
+  | None => false
+  end.
+
 Definition source_addrs (p : Z) (m : msg) : list waddr :=
   match rec_of_msg m with
   | Some e => match consume_signed p e with Some l => l | None => [] end
@@ -236,7 +244,9 @@ Inductive op :=
 | OTimeout (d : Z).                        (* d >= the identify timeout elapses *)
 
 (* events: 1 = EvtPeerIdentificationCompleted, 2 = EvtPeerIdentificationFailed,
-   3 = EvtPeerProtocolsUpdated; with the peer they name *)
+   3 = EvtPeerProtocolsUpdated; with the peer they name.  A Completed event
+   whose SignedPeerRecord is set is followed by 4 = the peer whose key sealed
+   that envelope, 5 = the peer the record in it names *)
 Definition event := (Z * Z)%type.
 
 Record sys := mkSys {
@@ -299,7 +309,8 @@ Definition handle_response (s : sys) (c : Z) (cs : list chunk) (push : bool) : o
   | Some cn, Some m =>
       let calls := consume verify id_of inline_key (s_ps s) m cn (connected (s_net s) (c_peer cn)) in
       Some (with_ps s (apply_ops id_of inline_key (s_ps s) calls), calls,
-            (if push then [(3, c_peer cn)] else []) ++ [(1, c_peer cn)])
+            (if push then [(3, c_peer cn)] else []) ++ [(1, c_peer cn)]
+            ++ (if record_used verify id_of (c_peer cn) m then [(4, c_peer cn); (5, c_peer cn)] else []))
   | _, _ => None
   end.
 
